@@ -134,6 +134,10 @@ def run(ctx):
 
     def add_case(ser, token, keys, sender, verify_all, obs, logx, m):
         log_, nondet = logx
+        if ctx.quick and m[0] == "fault" and m[1].split(":")[0] in ("bit", "taglen", "ivlen"):
+            thin[0] += 1
+            if thin[0] % 2:                 # quick: every 2nd of the most numerous fault kinds is replayed in Coq
+                return
         if not ctx.quick and m[0] == "fault":
             thin[0] += 1
             if thin[0] % 10:                # thorough: every 10th fault run is replayed in Coq (all are checked on the implementation)
@@ -203,7 +207,7 @@ def run(ctx):
             multis.append(r)
 
     # ------------------------------------------------------------------ fault stream
-    def attack(rec, tok, label, keys=None, sender="same", verify_all=True, expect_reject=True):
+    def attack(rec, tok, label, keys=None, sender="same", verify_all=True, expect_reject=True, coq=True):
         """run a mutated token; returned plaintext for octets that were never produced = violation"""
         keys = keys if keys is not None else rec["keys"]
         snd = rec["sender"] if sender == "same" else sender
@@ -234,7 +238,8 @@ def run(ctx):
             ctx.violation({"kind": "legit-token-rejected", "fault": kind, "ser": tok.ser},
                           "a token that must decrypt was rejected (%s on %s): %s" % (label, rec["label"], obs[1]),
                           replay_of(tok.ser, token, keys, snd, verify_all, rec["plaintext"].hex()))
-        add_case(tok.ser, token, keys, snd, verify_all, obs, logx, ("fault", label, rec["label"]))
+        if coq:
+            add_case(tok.ser, token, keys, snd, verify_all, obs, logx, ("fault", label, rec["label"]))
         return obs
 
     per = 2 if ctx.quick else 6           # bit positions per segment (None = every bit, see below)
@@ -432,6 +437,56 @@ def run(ctx):
             t = base.clone()
             t.header = hb
             attack(rec, t, "multi:respell:" + label, verify_all=False)
+
+    # ------------------------------------------------------------------ unauthenticated header injection
+    # every JOSE parameter that steers processing is added to the shared unprotected header and to a recipient's
+    # header (first / last) of JSON tokens; nothing covered by the tag changes, so the result must be a rejection or
+    # EXACTLY the original plaintext.  Some plaintexts are valid raw DEFLATE streams, so that an inflate step driven by
+    # an unauthenticated "zip" is observable as another plaintext.
+    import zlib as _zlib
+    inj_tokens = []
+    for r in targets:
+        if r["ser"] != "compact":
+            inj_tokens.append(r)
+    inj_tokens = inj_tokens[:ctx.scale(6, 60)] + multis[:ctx.scale(2, 20)]
+    deflated = [_zlib.compress(x)[2:-4] for x in (b"", b"attack at dawn", b"a" * 300, bytes(range(64)))]
+    dn = 0
+    for ser in ("flat", "general"):
+        for algs, enc in ((["A128KW"], "A128CBC-HS256"), (["dir"], "A256GCM"), (["ECDH-ES"], "A128GCM"),
+                          (["A128KW", "RSA-OAEP"], "A128GCM"), (["ECDH-ES+A128KW", "A256KW", "A128GCMKW"], "A256CBC-HS512")):
+            if len(algs) > 1 and ser == "flat":
+                continue
+            spec = J.make_spec(K, rng, ser, algs, enc, crv="P-256", plaintext=deflated[dn % len(deflated)],
+                               aad=b"aad" if dn % 2 else None, unprotected={"cty": "x"} if dn % 3 == 0 else None)
+            dn += 1
+            r = produce(spec, "deflate-stream-plaintext:%s/%s/%s" % ("+".join(algs), enc, ser))
+            if r:
+                inj_tokens.append(r)
+    other_enc = {"A128CBC-HS256": "A256GCM", "A256GCM": "A128CBC-HS256"}
+    inj_epk = K.curve_key("P-256", "alt").as_dict(private=False)
+    inj_n = 0
+    for rec in inj_tokens:
+        base = Tok(rec["ser"], rec["token"])
+        enc0 = rec["spec"]["enc"]
+        values = [("zip", "DEF"), ("enc", other_enc.get(enc0, "A128GCM")), ("alg", "dir"), ("alg", "A256KW"),
+                  ("crit", ["zip"]), ("crit", ["exp"]), ("apu", "QWxpY2U"), ("apv", "Qm9i"), ("p2c", 1), ("p2s", "AAAAAAAAAAA"),
+                  ("iv", J.b64e(bytes(12))), ("tag", J.b64e(bytes(16))), ("epk", inj_epk), ("skid", "someone"),
+                  ("b64", False), ("x-unknown", "1")]
+        positions = ["unprotected", "recipient-last"] + (["recipient-first"] if len(base.recips) > 1 else [])
+        for name, val in values:
+            for pos in positions:
+                inj_n += 1
+                if ctx.quick and name not in ("zip", "enc", "alg", "crit") and inj_n % 3:
+                    continue
+                t = base.clone()
+                if pos == "unprotected":
+                    t.unprotected = dict(t.unprotected or {}, **{name: val})
+                else:
+                    i = len(t.recips) - 1 if pos == "recipient-last" else 0
+                    t.recips[i]["header"] = dict(t.recips[i]["header"] or {}, **{name: val})
+                # all runs are judged on the implementation; the model replays zip / enc and a third of the others
+                attack(rec, t, "inject:%s@%s" % (name, pos), expect_reject=None,
+                       coq=(name in ("zip", "enc") or inj_n % 3 == 0 or not ctx.quick))
 
     # ------------------------------------------------------------------ registry selection x multi-recipient faults
     # every way of selecting the registry (none / algorithms= / registry= True|False / both); the caller opted into
